@@ -15,5 +15,12 @@ func evalIdent(ident *ast.Ident, env *object.Env) object.PanObject {
 		return appendStackTrace(err, ident.Source())
 	}
 
+	// NOTE: copy error object otherwise stacktrace is appended to the shared one
+	// (for example, `_` is a NotImplementedErr shared by all evaluations)
+	if err, ok := val.(*object.PanErr); ok {
+		copied := *err
+		return &copied
+	}
+
 	return val
 }
